@@ -68,9 +68,11 @@ VERIFY_ONLY = Cfg("verify", opt="-O2", verify=True)
 INT64 = Cfg("int64", widemul="int64", asm=False, window=2, comb=2)
 STRUCT = Cfg("struct", widemul="int128_struct", asm=False, window=5, comb=22)
 NOASM = Cfg("noasm", widemul="int128", asm=False, window=15, comb=22)
+# what an autotools build defines in addition (the pinned CMake build does not): alternative code paths in util.h / surjection
+BUILTINS = Cfg("builtins", extra=("-DHAVE_BUILTIN_POPCOUNT=1", "-DHAVE_BUILTIN_CLZLL=1"))
 SMALL13 = Cfg("small13", small=13, asm=False, window=2, comb=2)
 SMALL199 = Cfg("small199", small=199, asm=False, window=2, comb=2)
-CONFIGS = {c.name: c for c in (PROD, VSAN, VERIFY_ONLY, INT64, STRUCT, NOASM, SMALL13, SMALL199)}
+CONFIGS = {c.name: c for c in (PROD, VSAN, VERIFY_ONLY, INT64, STRUCT, NOASM, BUILTINS, SMALL13, SMALL199)}
 
 
 def _tree_digest():
